@@ -122,11 +122,20 @@ def instr_case(ctx, name):
         if name in ('PUSH1', 'PUSH2'):
             styles.append(Style(push_size=True))
             styles.append(Style(push_size=True, case='lower', prefix=''))
+        canon_ok = None
         for st in styles:
             n += 1
             src = refasm.source(prog, st)
             ctx.state((name, src))
-            judge(ctx, prog, src, {'family': 'instruction', 'op': name}, expect)
+            got, err = judge(ctx, prog, src, {'family': 'instruction', 'op': name}, expect)
+            # every documented spelling of a statement the compiler accepts in its canonical spelling is accepted too
+            if err is not None and expect is not None:
+                if canon_ok is None:
+                    canon_ok = compile_(refasm.source(prog, Style()))[1] is None
+                    ctx.ran()
+                if canon_ok:
+                    ctx.violation({'family': 'instruction', 'op': name, 'clause': 'a documented spelling of an accepted statement is rejected'},
+                                  f'source {src[:200]!r}: {err!r}')
         # the same statement as the last one of the source (nothing for a look-ahead to look at)
         last = [SENT_A, stmt]
         try:
